@@ -421,7 +421,7 @@ impl Property for StandaloneFree {
     type Case = FreeCase;
     fn part(&self) -> &'static str { "standalone-free" }
     fn strategy(&self, _tier: Tier) -> BoxedStrategy<FreeCase> { case_strategy(&SA_KINDS, &SA_CAPS, 4000) }
-    fn cases(&self, tier: Tier) -> u32 { match tier { Tier::Quick => 1_200, Tier::Thorough => 30_000 } }
+    fn cases(&self, tier: Tier) -> u32 { match tier { Tier::Quick => 3_000, Tier::Thorough => 40_000 } }
     fn run(&self, case: &FreeCase) -> RunReport { report(case) }
     fn replay(&self, case: &FreeCase) -> RunReport { replay_live(case) }
     fn rule(&self) -> String {
@@ -441,7 +441,7 @@ impl Property for RingsFree {
     type Case = FreeCase;
     fn part(&self) -> &'static str { "rings-free" }
     fn strategy(&self, _tier: Tier) -> BoxedStrategy<FreeCase> { case_strategy(&RING_KINDS, &RING_CAPS, 4000) }
-    fn cases(&self, tier: Tier) -> u32 { match tier { Tier::Quick => 1_000, Tier::Thorough => 30_000 } }
+    fn cases(&self, tier: Tier) -> u32 { match tier { Tier::Quick => 2_500, Tier::Thorough => 40_000 } }
     fn run(&self, case: &FreeCase) -> RunReport { report(case) }
     fn replay(&self, case: &FreeCase) -> RunReport { replay_live(case) }
     fn rule(&self) -> String {
